@@ -74,6 +74,10 @@ func init() {
 		X.lastHTTPStatus = code
 		for k := 0; k < st.NumFields(); k++ {
 			switch st.Field(k).Name() {
+			case "Header":
+				if X.httpRespHdr != nil {
+					resp[k] = X.httpRespHdr
+				}
 			case "StatusCode":
 				resp[k] = code
 			case "Body":
@@ -82,6 +86,10 @@ func init() {
 		}
 		cell := value(resp)
 		return tuple{&cell, iface{}}
+	}
+	symExternals[rtPkg+"HTTPResponseHeader"] = func(fr *frame, args []value) value {
+		X.httpRespHdr = args[0]
+		return nil
 	}
 	symExternals[rtPkg+"HTTPDoError"] = func(fr *frame, args []value) value {
 		X.httpDoErr = args[0]
